@@ -2119,3 +2119,62 @@ def authenticate_layout(ctx, mir, stats):
     obs.append({"id": "read_challenge_message:mic-inputs", "ok": bool(okm), "functions": [g.name],
                 "detail": "MIC = HMAC(exported session key, negotiate | the server's challenge bytes | authenticate with a zeroed MIC)" if okm else "mic inputs: %s" % [x[:60] for x in ms], "where": g.name})
     return obs
+
+
+# --------------------------------------------------------------------------
+# C04: Client Info string counts
+# --------------------------------------------------------------------------
+INFO_NATIVE = _native("verif_replay_info_packet_counts", "src/core/sec.rs", """
+        // cb* must be the byte size of the UTF-16 string without its terminator, for BMP and non-BMP text
+        for s in ["", "a", "\\u{e9}t\\u{e9}", "\\u{1F600}", "x\\u{1F600}y"].iter() {
+            let m = rdp_infos(false, &s.to_string(), &s.to_string(), &s.to_string(), false);
+            for (cb, f) in [("cbDomain", "domain"), ("cbUserName", "userName"), ("cbPassword", "password")].iter() {
+                let n = cast!(DataType::U16, m[*cb]).unwrap() as usize;
+                let bytes = cast!(DataType::Slice, m[*f]).unwrap();
+                assert_eq!(n + 2, bytes.len(), "{} for {:?}", cb, s);
+                assert_eq!(&bytes[n..], &[0u8, 0u8], "{} terminator for {:?}", f, s);
+            }
+        }""")
+
+
+def info_packet_counts(ctx, mir, stats):
+    f = find_fn(mir, r"^rdp_infos$")
+    se = SymExec(f, stats, loop_bound=0, max_paths=5000).run()
+    obs = []
+    done = False
+    for p in se.finished:
+        ins = calls_on(p.events, r"IndexMap::<String, Box<dyn Message>>::insert$")
+        keyed = {}
+        for i, e in ins:
+            k = resolve_source(p.events, i, e[4][1], depth=6)
+            m = re.search(r'const "(\w+)"', k)
+            if m:
+                keyed[m.group(1)] = (i, e)
+        if not all(k in keyed for k in ("cbDomain", "domain", "cbUserName", "userName", "cbPassword", "password")):
+            continue
+        done = True
+        for cb, fld in (("cbDomain", "domain"), ("cbUserName", "userName"), ("cbPassword", "password")):
+            i, e = keyed[cb]
+            # value of the count: the last U16::LE built before this insert
+            u = [x for x in p.events[:i] if x[0] == "assign" and x[3].startswith("Value::<u16>::LE(")]
+            v = se.operand(p, u[-1][3][len("Value::<u16>::LE("):-1]) if u else None
+            j, e2 = keyed[fld]
+            vec_src = resolve_source(p.events, j, e2[4][2], depth=8)
+            m = re.search(r"to_unicode\((?:copy |move )?\??(_\d+)\)", vec_src)
+            # the vector local: destination of the to_unicode call fed by that argument
+            vloc = None
+            for x in p.events[:j]:
+                if x[0] == "call" and re.search(r"to_unicode$", x[2]) and m and re.search(r"\b%s\b" % m.group(1), " ".join(x[4])):
+                    vloc = x[5]
+            L = p.env.get("len(%s)" % vloc) if vloc else None
+            if v is None or L is None:
+                obs.append({"id": "rdp_infos:%s" % cb, "ok": False, "functions": [f.name], "needs_native": True, "native": INFO_NATIVE,
+                            "detail": "%s is not computed from the length of the buffer sent as `%s` (count source not recognised)" % (cb, fld), "where": f.name})
+                continue
+            verdict, mdl, smt = se.check(p, [z3.UGE(L, z3.BitVecVal(2, 64)), z3.ULT(L, z3.BitVecVal(65538, 64)), v != z3.Extract(15, 0, L - 2)], "info counts")
+            obs.append({"id": "rdp_infos:%s" % cb, "ok": verdict == "unsat", "functions": [f.name], "needs_native": True, "native": None if verdict == "unsat" else INFO_NATIVE,
+                        "detail": "%s = byte length of the UTF-16 `%s` buffer minus its 2-byte terminator, for every string" % (cb, fld) if verdict == "unsat" else "%s differs from the size of `%s`: %s" % (cb, fld, mdl), "where": f.name})
+        break
+    if not done:
+        raise Inconclusive("ENCODING-FAILED: rdp_infos fields not recognised")
+    return obs
